@@ -119,3 +119,28 @@ Qed.
 Definition kw_starts_nonblank (k : str) : bool := match k with [] => false | c :: _ => negb (is_space c) end.
 Lemma step_keywords_start_nonblank : forallb (fun d => forallb kw_starts_nonblank (step_keywords d)) Dialects.dialects = true.
 Proof. vm_compute. reflexivity. Qed.
+
+(* ---- the header prefix, exactly: one to six '#', then a whitespace character ---- *)
+Lemma count_while_spec p s : exists a r, s = a ++ r /\ forallb p a = true /\ count_while p s = length a
+                                         /\ match r with [] => True | c :: _ => p c = false end.
+Proof.
+  unfold count_while. induction s as [|c s IH]; [exists [], []; auto|]. cbn [take_while]. destruct (p c) eqn:E.
+  - destruct IH as (a & r & Es & Fa & L & Hr). exists (c :: a), r. cbn [app forallb length]. rewrite E, Fa, L, <- Es. auto.
+  - exists [], (c :: s). cbn. auto.
+Qed.
+
+Theorem header_prefix_exact s n : header_prefix s = Some n <->
+  exists d sp rest, s = repeat HASH d ++ sp :: rest /\ (1 <= d <= 6)%nat /\ is_space sp = true /\ n = S d.
+Proof.
+  split.
+  - unfold header_prefix. destruct (count_while_spec (fun c => c =? HASH) s) as (a & r & Es & Fa & L & Hr). rewrite L.
+    destruct ((1 <=? length a)%nat && (length a <=? 6)%nat) eqn:B; [|discriminate]. apply andb_prop in B as [B1 B2].
+    apply Nat.leb_le in B1. apply Nat.leb_le in B2. rewrite Es, skipn_app_length.
+    destruct r as [|c r]; [discriminate|]. destruct (is_space c) eqn:Sp; [|discriminate]. intros H. inversion H; subst n.
+    exists (length a), c, r. split; [|auto]. f_equal. clear - Fa. induction a as [|x a IH]; [reflexivity|]. cbn [forallb] in Fa.
+    apply andb_prop in Fa as [Ex Fa]. apply N.eqb_eq in Ex. subst x. cbn [length repeat]. f_equal. exact (IH Fa).
+  - intros (d & sp & rest & -> & Hd & Hsp & ->). unfold header_prefix.
+    rewrite count_while_repeat by (cbn; destruct (sp =? HASH) eqn:E; [apply N.eqb_eq in E; subst; discriminate | reflexivity]).
+    assert (B : ((1 <=? d)%nat && (d <=? 6)%nat) = true) by (apply andb_true_intro; split; apply Nat.leb_le; lia).
+    rewrite B, skipn_repeat_app, Hsp. reflexivity.
+Qed.
